@@ -676,6 +676,10 @@ type CLICrashCase struct {
 	// DeepPath > 0: f1 is a native diff with one merge hunk whose path has
 	// that many keys (written out here, not stored in the case).
 	DeepPath int `json:"deep_path,omitempty"`
+	// ArgList: the argument list itself is malformed (no file, three files,
+	// an unknown flag). Both binaries answer with their usage text, so only
+	// the status and the absence of a Go stack trace are judged.
+	ArgList bool `json:"arg_list,omitempty"`
 }
 
 func deepPathDiff(n int) string {
@@ -725,6 +729,13 @@ func checkC13CLI(c CLICrashCase, r *rec.Rec) error {
 		return rec.Violated("%s exits with status %d\nstderr:\n%s", desc, res.Status, firstLines(res.Stderr, 12))
 	}
 	cls := []string{"bin=" + c.Bin, fmt.Sprintf("status=%d", res.Status)}
+	if c.ArgList {
+		if res.Status != 2 {
+			return rec.Violated("%s: malformed argument list, exits %d instead of 2\nstderr:\n%s", desc, res.Status, firstLines(res.Stderr, 12))
+		}
+		r.Case(desc, true, append(cls, "malformed-argument-list")...)
+		return nil
+	}
 	if res.Status == 2 {
 		if res.Stdout != "" {
 			return rec.Violated("%s exits 2 but prints to stdout:\n%s", desc, firstLines(res.Stdout, 12))
@@ -800,6 +811,19 @@ func genC13CLI(t *rapid.T) CLICrashCase {
 		c.DeepPath = gen.Pick(t, "deepLen", []int{800, 3000, 8000})
 		c.F2 = &doc
 		c.Args = append(flags, "-p", "f1", "f2")
+		return c
+	}
+	if gen.Chance(t, "argList", 4) {
+		c.ArgList = true
+		c.F1 = `{"a":1}`
+		if gen.Chance(t, "bare", 30) {
+			c.Args = []string{} // the binary called with nothing at all
+			return c
+		}
+		c.Args = append(flags, gen.Pick(t, "badArgs", [][]string{
+			{}, {"-p"}, {"f1", "f1", "f1"}, {"-p", "f1", "f1", "f1"}, {"-nosuch", "f1", "f1"}, {"-precision=x", "f1", "f1"},
+			{"-port=x"}, {"-t=jd2patch", "f1", "f1"}, {"-f=patch", "-p"}, {"-set", "-mset", "-setkeys=id"},
+		})...)
 		return c
 	}
 	if gen.Chance(t, "emptyResult", 8) {
